@@ -70,7 +70,7 @@ fn run() {
     let mut out = std::io::BufWriter::new(stdout.lock());
     let mut cur: Option<Box<dyn Runner>> = None;
     // runaway guard: a changed implementation whose states explode (or that loops) must not take the check down with it.
-    // A command that needs > 1.5 s or prints > 200 kB marks its case dead (`runaway-skip` for the rest of the case);
+    // A command that needs > 30 s or prints > 2 MB marks its case dead (`runaway-skip` for the rest of the case);
     // after 3 such cases the harness stops (the missing lines count as a disagreement with the model).
     let mut dead = false;
     let mut runaways = 0;
@@ -99,7 +99,7 @@ fn run() {
                 None => "nocase".into(),
             },
         };
-        if started.elapsed().as_millis() > 1500 || res.len() > 200_000 {
+        if started.elapsed().as_millis() > 30_000 || res.len() > 2_000_000 {
             dead = true;
             runaways += 1;
             writeln!(out, "RUNAWAY millis={} len={}", started.elapsed().as_millis(), res.len()).unwrap();
